@@ -282,6 +282,11 @@ func copyNames(m map[string]Val) map[string]Val {
 func debugName(dr *ssa.DebugRef) string {
 	type named interface{ Name() string }
 	if o := dr.Object(); o != nil {
+		// a selector expression x.f refers to the FIELD object f: its value is not the value of a variable named f
+		// (binding it would let a contract's "f" silently mean "the last x.f that was read")
+		if v, isVar := o.(*types.Var); isVar && v.IsField() {
+			return ""
+		}
 		return o.Name()
 	}
 	return ""
